@@ -429,6 +429,16 @@ pub fn worker(idx: usize) {
                             for v in out2.violations {
                                 viols.push(json!([ci, k.name(), mname, v.class, v.detail, cj + 1000 * (which + 1)]));
                             }
+                            if torn_write && which == 0 {
+                                // the second failure is itself a write cut short (40 bytes: inside the page header
+                                // and the first words of a record)
+                                cases += 1;
+                                let f3 = Fault::at(cj as u64, FaultMode::ShortThenErrno(40, libc::EIO));
+                                let out4 = run_case(sc, &path2, step, Some(f), Some((which, f3)));
+                                for v in out4.violations {
+                                    viols.push(json!([ci, k.name(), mname, format!("second_short_write:{}", v.class), v.detail, cj + 1000 * (which + 1) + 50_000]));
+                                }
+                            }
                             if *k == Kind::Fsync && which == 0 && sc.cfg.num_pages >= 64 {
                                 // the same with a reader opened between the two failures
                                 cases += 1;
@@ -524,7 +534,7 @@ pub fn run(check: &mut Check) {
     found.sort_by(|a, b| (a.0, a.1, a.2, &a.4).cmp(&(b.0, b.1, b.2, &b.4)));
     for (si, step, call, kind, mode, class, detail, second) in found {
         let sc = &scs[si];
-        check.violation(&class, &format!("[script {} commit at step {}: call #{} ({}) fails with {}{}] {}", sc.name, step, call, kind, mode, if second.is_null() || second.as_str().is_some() { String::new() } else { format!(", second fault EIO at call #{} of follow-up {}", second.as_u64().unwrap_or(0) % 1000, if second.as_u64().unwrap_or(0) < 1000 { 2 } else { second.as_u64().unwrap_or(0) / 1000 }) }, detail), || {
+        check.violation(&class, &format!("[script {} commit at step {}: call #{} ({}) fails with {}{}] {}", sc.name, step, call, kind, mode, if second.is_null() || second.as_str().is_some() { String::new() } else { format!(", second fault EIO at call #{} of follow-up {}", second.as_u64().unwrap_or(0) % 1000, if second.as_u64().unwrap_or(0) < 1000 { 2 } else { (second.as_u64().unwrap_or(0) % 50_000) / 1000 }) }, detail), || {
             json!({"engine": "faultx", "tier": tier.name(), "script": sc.name, "script_index": si, "step": step, "call": call, "kind": kind, "mode": mode, "second": second, "actions": sc.actions.iter().map(|a| a.to_json()).collect::<Vec<_>>()})
         });
     }
@@ -577,8 +587,9 @@ pub fn replay(v: &Value) -> i32 {
         let f = Fault::at(call, mode);
         let huge = v_second_is_huge;
         let reader_between = second.map(|cj| cj >= 100_000).unwrap_or(false);
-        let second = second.map(|cj| cj % 100_000);
-        let out = run_case_y(sc, &path, step, Some(f), second.map(|cj| if cj >= 1000 { ((cj / 1000 - 1) as usize, Fault::at(cj % 1000, FaultMode::Errno(libc::EIO))) } else { (1usize, Fault::at(cj, FaultMode::Errno(libc::EIO))) }), with_reader, rollback_first, (reader_between as u8) | ((huge as u8) << 1));
+        let second_short = second.map(|cj| cj % 100_000 >= 50_000).unwrap_or(false);
+        let second = second.map(|cj| cj % 50_000);
+        let out = run_case_y(sc, &path, step, Some(f), second.map(|cj| { let m2 = if second_short { FaultMode::ShortThenErrno(40, libc::EIO) } else { FaultMode::Errno(libc::EIO) }; if cj >= 1000 { ((cj / 1000 - 1) as usize, Fault::at(cj % 1000, m2)) } else { (1usize, Fault::at(cj, m2)) } }), with_reader, rollback_first, (reader_between as u8) | ((huge as u8) << 1));
         println!("outcome of the failed commit: {}", out.outcome);
         for x in &out.violations {
             println!("   !! {}: {}", x.class, x.detail);
